@@ -263,7 +263,7 @@ where
     let s = match res {
         Err(a) => {
             let v = abort_to_violation(&a);
-            if v.class == "panic" && v.message.contains("overflow") && std::any::type_name::<R>().contains("i64") {
+            if is_machine_overflow(&v) && std::any::type_name::<R>().contains("i64") {
                 rep.counters.insert("i64_overflow_skipped".into(), 1);
                 rep.outcome_class = "i64-overflow".into();
                 return rep;
